@@ -59,6 +59,7 @@ enum Act {
   Yield,
   Count(usize),
   BlockOn(usize),
+  BlockOnHandover(usize),
   Using(usize),
   UsingPanic(usize),
   DropSched(usize),
@@ -237,6 +238,10 @@ fn parse_act(x: &Sx, c: &Counts) -> ActN {
     "block_on" => {
       need(2);
       Act::BlockOn(parse_ref(&l[1], c.tovecs, "tovec"))
+    }
+    "block_on_handover" => {
+      need(2);
+      Act::BlockOnHandover(parse_ref(&l[1], c.tovecs, "tovec"))
     }
     "using" => {
       need(2);
@@ -514,11 +519,13 @@ fn repoll(tv: usize) {
   }
 }
 
-fn block_on(cx: &Cx, tv: usize, source: &Observable<'static, V>) {
+// handover: after the first pending poll the awaiter goes on with a CLONE of the future and drops the handle it polled first
+// (clones share the to_vec state, so whichever handle is polled resolves when the source terminates)
+fn block_on(cx: &Cx, tv: usize, source: &Observable<'static, V>, handover: bool) {
   let tvx = atom(tv);
   let fut = source.to_vec();
   let fut2 = fut.clone(); // a second awaiter of the same to_vec state (clones share it): polled once the first has resolved
-  let mut fut = std::pin::pin!(fut);
+  let mut fut = Box::pin(fut);
   let mut k = 0usize;
   let res = loop {
     // every poll hands in a FRESH waker; only the latest one is waited on
@@ -530,6 +537,11 @@ fn block_on(cx: &Cx, tv: usize, source: &Observable<'static, V>) {
     k += 1;
     if let std::task::Poll::Ready(r) = fut.as_mut().poll(&mut tcx) {
       break r;
+    }
+    if handover && k == 1 {
+      let c = (*fut).clone();
+      fut = Box::pin(c); // the handle polled first is dropped here
+      cx.rec.ev("handover", vec![tvx.clone()]);
     }
     let mut g = token.flag.lock().unwrap();
     while !*g {
@@ -618,7 +630,9 @@ fn exec(cx: &Cx, a: &ActN) {
       let counter = o.cbcount.lock().unwrap().entry(*u).or_insert_with(|| Arc::new(AtomicUsize::new(0))).clone();
       let user = atom(u);
       let (cx2, reacts) = (cx.clone(), reacts.clone());
+      let tok = CTok::new(); // lives exactly as long as the three callbacks handed to subscribe (C17)
       let cb: Arc<dyn Fn(Sx, Option<Observable<'static, V>>) + Send + Sync> = Arc::new(move |ev: Sx, inner: Option<Observable<'static, V>>| {
+        tok.touch();
         cx2.rec.ev("cb", vec![user.clone(), ev]);
         if let Some(inner) = inner {
           child_subscribe(&cx2, inner);
@@ -655,7 +669,9 @@ fn exec(cx: &Cx, a: &ActN) {
     }
     Act::Post { s, t, acts } => {
       let (cx2, t2, acts2) = (cx.clone(), t.clone(), acts.clone());
+      let tok = Arc::new(CTok::new()); // lives as long as any copy of the task closure
       let task = move || {
+        tok.touch();
         cx2.rec.ev("task-start", vec![t2.clone()]);
         exec_all(&cx2, &acts2);
         cx2.rec.ev("task-end", vec![t2.clone()]);
@@ -686,7 +702,8 @@ fn exec(cx: &Cx, a: &ActN) {
       let n = o.penv.subjects[*h].count();
       rec.ev("count", vec![atom(h), atom(n)]);
     }
-    Act::BlockOn(tv) => block_on(cx, *tv, &o.tovecs[*tv]),
+    Act::BlockOn(tv) => block_on(cx, *tv, &o.tovecs[*tv], false),
+    Act::BlockOnHandover(tv) => block_on(cx, *tv, &o.tovecs[*tv], true),
     Act::Repoll(tv) => repoll(*tv),
     Act::Using(u) => {
       let s = o.slots.lock().unwrap().get(u).cloned();
@@ -722,8 +739,9 @@ fn exec(cx: &Cx, a: &ActN) {
 }
 
 // ---------------------------------------------------------------- one run
-fn run_once(sc: &Arc<Scenario>, cfg: Config) -> (Outcome, RecData) {
+fn run_once(sc: &Arc<Scenario>, cfg: Config) -> (Outcome, RecData, (i64, i64)) {
   *CURRENT_TOKEN.lock().unwrap() = None;
+  let base = (LIVE_ITEMS.load(Ordering::SeqCst), LIVE_CLOSURES.load(Ordering::SeqCst));
   let rec = Rec::default();
   let holder: Arc<Mutex<Option<Arc<Objects>>>> = Arc::new(Mutex::new(None));
   let (sc2, rec2, holder2) = (sc.clone(), rec.clone(), holder.clone());
@@ -751,10 +769,12 @@ fn run_once(sc: &Arc<Scenario>, cfg: Config) -> (Outcome, RecData) {
   // the run is over: every thread of it is finished or parked for good; release the objects
   let objs = holder.lock().unwrap_or_else(|e| e.into_inner()).take();
   drop(objs);
-  (out, rec.take())
+  // item / closure tokens still alive although every handle of the run is gone (meaningful when every thread has finished)
+  let left = (LIVE_ITEMS.load(Ordering::SeqCst) - base.0, LIVE_CLOSURES.load(Ordering::SeqCst) - base.1);
+  (out, rec.take(), left)
 }
 
-fn observation(sc: &Scenario, seed: u64, out: &Outcome, data: RecData) -> String {
+fn observation(sc: &Scenario, seed: u64, out: &Outcome, data: RecData, left: (i64, i64)) -> String {
   let f = |name: &str, v: Sx| Sx::L(vec![Sx::A(name.into()), v]);
   let status = match &out.status {
     Status::Ok => "ok",
@@ -770,6 +790,7 @@ fn observation(sc: &Scenario, seed: u64, out: &Outcome, data: RecData) -> String
     f("panics", atom(out.panics.len())),
     f("steps", atom(out.steps)),
     f("vt", atom(out.end_time)),
+    tagged("left", vec![Sx::A(left.0.to_string()), Sx::A(left.1.to_string())]),
   ];
   v.push(tagged("names", data.names.iter().map(|(t, n)| Sx::L(vec![atom(t), Sx::A(n.clone())])).collect()));
   v.push(tagged(
@@ -837,13 +858,13 @@ fn run_scenario(x: &Sx, emit: &mut dyn FnMut(&str)) -> u64 {
   let mut n_obs = 0u64;
   let mut one = |cfg: Config, emit: &mut dyn FnMut(&str)| -> Outcome {
     let seed = cfg.seed;
-    let (out, data) = run_once(&sc, cfg);
+    let (out, data, left) = run_once(&sc, cfg);
     if out.panics.iter().any(|(_, m)| m.contains("cannot spawn OS thread") || m.contains("failed to spawn thread")) {
       // not a property of the crate: this process has leaked too many parked threads (see README)
       EXHAUSTED.store(true, Ordering::SeqCst);
       panic!("out of OS threads in the run with seed {}: restart the process", seed);
     }
-    emit(&observation(&sc, seed, &out, data));
+    emit(&observation(&sc, seed, &out, data, left));
     n_obs += 1;
     out
   };
